@@ -1744,6 +1744,8 @@ func (m *repoManager) hideBranch(uuid dvid.UUID, branch string) error {
 			node.children = children
 		}
 	}
+	// The hidden branch no longer has a head.
+	m.resetBranchHeads(r)
 	r.Unlock()
 	m.repoMutex.Unlock()
 	return r.save()
